@@ -4,7 +4,7 @@ use crate::{EncodeMode, MFType};
 
 // C18-C / C03-B: .lzma writer with a declared size: header layout (LZMA_Alone: props, dict LE32, size LE64 or all-ones),
 // writes beyond the declared size are refused before anything is encoded, finishing short is refused.
-//@ {"name":"c18c_lzma_expected_size","props":["C18","C03","C19"],"obligation":"C18-C","timeout":1500,"mem_gb":9,"functions":["enc::lzma_writer::LZMAWriter::new","enc::lzma_writer::LZMAWriter::write","enc::lzma_writer::LZMAWriter::finish","lz::lz_encoder::LZEncoderData::fill_window","enc::encoder::LZMAEncoder::encode_for_lzma1"],"bounds":"lc=1, lp=0, pb=2, dict_size 4096 (concrete); expected size None or any u64; two write calls of 0..=3 bytes each (symbolic lengths); Fast/HC4; unwind 14","assumes":["writes are shorter than the encoder's look-ahead, so no symbol is coded before finish (the coding loop itself is outside this harness)","successful finish path cut (kani::assume) - it would run the real encoder"]}
+//@ {"name":"c18c_lzma_expected_size","props":["C18","C03","C19"],"obligation":"C18-C","timeout":1500,"mem_gb":9,"functions":["enc::lzma_writer::LZMAWriter::new","enc::lzma_writer::LZMAWriter::write","enc::lzma_writer::LZMAWriter::finish","lz::lz_encoder::LZEncoderData::fill_window","enc::encoder::LZMAEncoder::encode_for_lzma1"],"bounds":"lc=1, lp=0, pb=2, dict_size 4096 (concrete); expected size None or any u64; end-marker flag symbolic (all four combinations of the 5-argument constructor); two write calls of 2 and 1 bytes; Fast/HC4; unwind 14","assumes":["writes are shorter than the encoder's look-ahead, so no symbol is coded before finish (the coding loop itself is outside this harness)","successful finish path cut (kani::assume) - it would run the real encoder"]}
 #[kani::proof]
 #[kani::unwind(14)]
 #[kani::stub(crate::enc::encoder::LZMAEncoder::new, crate::enc::encoder::verif_stubs_enc::verif_cheap_encoder)]
@@ -17,21 +17,26 @@ fn c18c_lzma_expected_size() {
     let has_exp: bool = kani::any();
     let exp: u64 = kani::any();
     let expected = if has_exp { Some(exp) } else { None };
-    let w = LZMAWriter::new_use_header(Sink::<32>::new(), &o, expected);
+    let marker: bool = kani::any();
+    // the sink lives outside the writer (a sink embedded in the ~40 KB writer struct makes every sink access a
+    // whole-struct byte operation for CBMC)
+    let mut sink = Sink::<32>::new();
+    let w = LZMAWriter::new(&mut sink, &o, true, marker, expected);
     assert!(w.is_ok());
     let mut w = w.unwrap();
     {
-        let s = w.rc.inner();
+        let s: &Sink<32> = &**w.rc.inner();
         assert!(s.len == 13, "C03-B: .lzma header must be 13 bytes");
         assert!(s.buf[0] as u32 == (pb * 5) * 9 + lc, "C03-B: properties byte");
         assert!(u32::from_le_bytes([s.buf[1], s.buf[2], s.buf[3], s.buf[4]]) == dict, "C03-B: dictionary size field");
         let sz = u64::from_le_bytes([s.buf[5], s.buf[6], s.buf[7], s.buf[8], s.buf[9], s.buf[10], s.buf[11], s.buf[12]]);
         assert!(sz == if has_exp { exp } else { u64::MAX }, "C18-C: header must carry exactly the declared size (all ones when unknown)");
     }
-    assert!(w.use_end_marker == !has_exp);
+    assert!(w.use_end_marker == marker);
     let data = [0x41u8, 0x42, 0x43];
-    let (n1, n2): (usize, usize) = (kani::any(), kani::any());
-    kani::assume(n1 <= 3 && n2 <= 3);
+    // write lengths are concrete (symbolic-length copies into the LZ window are whole-array operations for CBMC);
+    // what is symbolic is the declared size they are compared with
+    let (n1, n2): (usize, usize) = (2, 1);
     let r1 = w.write(&data[..n1]);
     let mut accepted = 0u64;
     if has_exp && exp < n1 as u64 {
@@ -65,25 +70,26 @@ use crate::Read;
 fn lzma1_one_literal(end_marker: bool) {
     let o = LZMAOptions::new(4096, 0, 0, 0, EncodeMode::Fast, 32, MFType::HC4, 4);
     let b: u8 = kani::any();
-    let mut w = LZMAWriter::new_no_header(Sink::<48>::new(), &o, end_marker).unwrap();
+    let mut sink = Sink::<48>::new();
+    let mut w = LZMAWriter::new_no_header(&mut sink, &o, end_marker).unwrap();
     assert!(matches!(w.write(&[b]), Ok(1)));
-    let sink = w.finish();
-    assert!(sink.is_ok());
-    let sink = sink.unwrap();
+    let fin = w.finish();
+    assert!(fin.is_ok());
+    core::mem::forget(fin);
     let produced = sink.len;
     assert!(produced >= 5);
     // a trailing byte that does not belong to the stream follows it
     let mut buf = sink.buf;
     buf[produced] = 0xA5;
-    let src = Src::<48>::new(buf, produced + 1);
+    let mut src = Src::<48>::new(buf, produced + 1);
     let size = if end_marker { u64::MAX } else { 1 };
-    let mut r = crate::LZMAReader::new(src, size, 0, 0, 0, 4096, None).unwrap();
+    let mut r = crate::LZMAReader::new(&mut src, size, 0, 0, 0, 4096, None).unwrap();
     let mut out = [0u8; 4];
     let n = r.read(&mut out);
     assert!(matches!(n, Ok(1)) && out[0] == b, "C01: one literal does not round-trip through LZMAWriter/LZMAReader");
     let n2 = r.read(&mut out);
     assert!(matches!(n2, Ok(0)), "C16: end of stream not reported after the last byte");
-    let src = r.into_inner();
+    core::mem::forget(r);
     assert!(src.pos == produced, "C16-A: reader did not stop exactly at the end of the LZMA stream");
     kani::cover!(b == 0xFF, "all-ones literal");
 }
